@@ -813,7 +813,7 @@ fn generate_single(r: &mut Rng, tier: Tier) -> C16 {
     }
     // a big frame accepted in uniform small pieces from its first to its last byte
     let mut uniform_repeat = None;
-    if big && r.chance(1, 4) {
+    if big && r.chance(1, if tier == Tier::Thorough { 64 } else { 4 }) {
         sink = vec![Step::Xfer(*r.pick(&[1u32, 1, 2, 7, 1448, 4096]))];
         uniform_repeat = Some(1u32 << 20);
     }
